@@ -129,5 +129,7 @@ theorem codegenBefore_skeletons : Skeletons.CodegenBeforeShape := Skeletons.code
 theorem codegenAfter_skeletons : Skeletons.CodegenAfterShape := Skeletons.codegenAfter_shape
 theorem checkerBefore_skeletons : Skeletons.CheckerBeforeShape := Skeletons.checkerBefore_shape
 theorem checkerAfter_skeletons : Skeletons.CheckerAfterShape := Skeletons.checkerAfter_shape
+theorem f_codegen_codegen_skeletons : Skeletons.F_codegen_codegenShape := Skeletons.f_codegen_codegen_shape
+theorem f_vm_vm_skeletons : Skeletons.F_vm_vmShape := Skeletons.f_vm_vm_shape
 
 end MtailVerif.C04
